@@ -1,54 +1,88 @@
-(* C02 -- pipelines: wiring, EOF, every stage started once, status of the last stage. *)
-From Coq Require Import List Arith Bool ZArith Permutation.
+(* C02 -- pipelines: wiring, EOF, every stage started once, status of the last stage.
+   Model as of /repo d4ac685 (v0 = the code as it is). *)
+From Coq Require Import List Arith Bool ZArith Permutation Lia.
 From Cicada Require Import Model.OsLite Model.Pipeline Model.WaitFg
-     Proofs.OsLiteProofs Proofs.PipelineProofs Proofs.WaitFgProofs.
+     Proofs.OsLiteProofs Proofs.PipelineProofs Proofs.ChildProofs Proofs.EofProofs Proofs.WaitFgProofs.
 Import ListNotations.
 
 Definition nf (_ : nat) := false.
 Definition yes (_ : nat) := true.
 Definition sh0 := mkp t_std [].
 Definition ext := mks FNone [] KExt [].
-Definition obj_at (t : table) (fd : nat) : option obj := option_map fst (lookup t fd).
 
-(* wiring demanded by the property (together with C04 for stdin redirections): descriptor 0 of
-   stage idx is std_in, descriptor 1 is std_out, BEFORE the stage's own output redirections *)
-Definition wired (T0 : table) (n : nat) (capture : bool) (k : kid) (st : stage) : Prop :=
-  k_out k = OExec -> s_redirs st = [] ->
-  obj_at (tab (k_proc k)) 0 = option_map (fun o => std_in o (k_idx k) st) (obj_at T0 0) /\
-  obj_at (tab (k_proc k)) 1 = option_map (fun o => std_out o n capture (k_idx k)) (obj_at T0 1).
+(* wiring: descriptor 0 of stage idx is the read end of pipe idx-1 (the shell's stdin for the first
+   stage; the file / here-string pipe if the stage redirects its input), descriptor 1 the write end of
+   pipe idx (the shell's stdout, or the capture pipe, for the last), BEFORE the stage's own output
+   redirections (those are C04) *)
+Definition wired (i0 o0 e0 : obj) (n : nat) (capture : bool) (idx : nat) (st : stage) (k : kid) : Prop :=
+  k_idx k = idx /\
+  (k_out k = OExec ->
+     lookup (tab (k_proc k)) 0 = Some (std_in i0 idx st, false) /\
+     (s_redirs st = [] ->
+        lookup (tab (k_proc k)) 1 = Some (std_out o0 n capture idx, false) /\
+        lookup (tab (k_proc k)) 2 = Some (std_err e0 n capture idx, false))).
+
 Definition C02_full : Prop :=
-  forall pl, let r := run_pipeline false nf yes pl sh0 in
-  Forall2 (wired t_std (length (p_stages pl)) (p_capture pl)) (res_kids r) (p_stages pl).
+  forall v fail_at openable pl sh i0 o0 e0,
+  std_ok (tab sh) i0 o0 e0 -> is_single_builtin pl = false ->
+  let r := run_pipeline v fail_at openable pl sh in
+  res_error r = false ->
+  kids_ok (wired i0 o0 e0 (length (p_stages pl)) (p_capture pl)) 0 (p_stages pl) (res_kids r).
 
-(* echo a | cat <<< x : stage 1 reads the upstream pipe, nobody holds the read end of the here-string
-   pipe (the word is lost; the shell's write gets SIGPIPE) *)
-Example C02_refuted_here :
-  let r := run_pipeline false nf yes (mkplan [ext; mks FHere [] KExt []] false) sh0 in
-  map (fun k => obj_at (tab (k_proc k)) 0) (res_kids r) = [Some (OInh 0); Some (OPipeR (PStage 0))].
-Proof. vm_compute. reflexivity. Qed.
-Theorem C02_refuted : ~ C02_full.
+Theorem C02_wiring : C02_full.
 Proof.
-  intro H. specialize (H (mkplan [ext; mks FHere [] KExt []] false)).
-  vm_compute in H. inversion H as [|k0 s0 ks ss _ H1]; subst. inversion H1 as [|k1 s1 ks1 ss1 W _]; subst.
-  destruct (W eq_refl eq_refl) as (W0 & _). vm_compute in W0. discriminate.
+  intros v fail_at openable pl sh i0 o0 e0 SO NB r NE.
+  pose proof (kids_ok_bound _ _ _ _ (pipeline_kids v openable fail_at pl sh i0 o0 e0 SO NB NE)) as K.
+  eapply kids_ok_impl; [|exact K]. cbn beta. intros idx st k (KS & BD). cbn in BD.
+  split; [apply KS|]. intro HE.
+  destruct (kid_std_fds _ _ _ _ _ _ _ _ _ _ _ KS HE) as (A & B & C). split; [exact A|].
+  intro NR. rewrite NR in B, C.
+  assert (LE : idx <= length (p_stages pl) - 1) by lia.
+  rewrite (final_sinks_posix (p_capture pl) (length (p_stages pl) - 1) idx [] o0 e0 LE (or_intror eq_refl)) in B, C.
+  replace (S (length (p_stages pl) - 1)) with (length (p_stages pl)) in B, C by lia.
+  split; [exact B | exact C].
 Qed.
-(* the same plan on the model of the repaired code *)
-Example C02_here_repaired :
-  let r := run_pipeline true nf yes (mkplan [ext; mks FHere [] KExt []] false) sh0 in
-  map (fun k => obj_at (tab (k_proc k)) 0) (res_kids r) = [Some (OInh 0); Some (OPipeR (PHere 1))]
-  /\ map (fun k => map (obj_at (tab (k_proc k))) [3; 4; 5]) (res_kids r) = [[None; None; None]; [None; None; None]].
-Proof. vm_compute. split; reflexivity. Qed.
 
-(* every stage is forked exactly once and the shell ends up holding no pipe end (so EOF can
-   propagate: no writer is left in the shell) -- every n, every initial table, both variants,
-   here-strings and redirections included *)
-Theorem C02_once_and_shell_holds_nothing : forall fixed openable pl sh,
+(* EOF: who holds which pipe end once all stages are started.  For every n, every initial table that holds
+   nothing but inherited objects, every plan: the shell holds no pipe end at all; an exec'd stage can hold the
+   write end of stage pipe j only if it IS stage j (on 1, or on 2 after 2>&1) and the read end of pipe j only
+   if it is stage j+1 (on 0).  With C02_wiring (a stage without redirections does hold them) the holders of
+   the write end of pipe k are exactly {stage k} and of its read end exactly {stage k+1}: a reader sees EOF
+   as soon as its upstream stage is gone, a writer gets SIGPIPE as soon as its downstream stage is gone. *)
+Definition holds_only_own_ends (pc idx : nat) (k : kid) : Prop :=
+  k_out k = OExec ->
+  forall x j c,
+    (lookup (tab (k_proc k)) x = Some (OPipeW (PStage j), c) -> j = idx /\ idx < pc /\ (x = 1 \/ x = 2)) /\
+    (lookup (tab (k_proc k)) x = Some (OPipeR (PStage j), c) -> idx = S j /\ x = 0).
+
+Theorem C02_eof : forall fail_at openable pl sh i0 o0 e0,
+  std_ok (tab sh) i0 o0 e0 -> inh_only (tab sh) -> is_single_builtin pl = false ->
+  let r := run_pipeline v0 fail_at openable pl sh in
+  (forall x o c, lookup (tab (res_shell r)) x = Some (o, c) -> exists i, o = OInh i) /\
+  (res_error r = false ->
+   kids_ok (fun idx _ k => holds_only_own_ends (length (p_stages pl) - 1) idx k) 0 (p_stages pl) (res_kids r)).
+Proof.
+  intros fail_at openable pl sh i0 o0 e0 SO IO NB r. split.
+  - intros x o c H. destruct (shell_restored v0 fail_at openable pl sh NB) as (T & _); [auto|].
+    fold r in T. rewrite (T x) in H. eapply IO; eauto.
+  - intro NE. eapply kids_ok_impl; [|apply (pipeline_kids v0 openable fail_at pl sh i0 o0 e0 SO NB NE)].
+    cbn beta. intros idx st k KS HE. eapply kid_holders; eauto.
+Qed.
+Check C02_eof : forall fail_at openable pl sh i0 o0 e0,
+  std_ok (tab sh) i0 o0 e0 -> inh_only (tab sh) -> is_single_builtin pl = false ->
+  let r := run_pipeline v0 fail_at openable pl sh in
+  (forall x o c, lookup (tab (res_shell r)) x = Some (o, c) -> exists i, o = OInh i) /\
+  (res_error r = false ->
+   kids_ok (fun idx _ k => holds_only_own_ends (length (p_stages pl) - 1) idx k) 0 (p_stages pl) (res_kids r)).
+
+(* every stage is forked exactly once and the shell's table is what it was *)
+Theorem C02_once_and_shell_holds_nothing : forall v openable pl sh,
   is_single_builtin pl = false ->
-  let r := run_pipeline fixed nf openable pl sh in
+  let r := run_pipeline v nf openable pl sh in
   length (res_kids r) = length (p_stages pl) /\ teq_tab (res_shell r) (tab sh).
 Proof.
-  intros fixed openable pl sh NB.
-  destruct (shell_restored fixed nf openable pl sh NB) as (A & B).
+  intros v openable pl sh NB.
+  destruct (shell_restored v nf openable pl sh NB) as (A & B).
   - unfold capture_fails, nf. rewrite Bool.andb_false_r. discriminate.
   - split; [|exact A].
     destruct (p_stages pl) as [|s m] eqn:ES.
@@ -63,9 +97,16 @@ Proof.
     specialize (G (length m) 0 sh). destruct (mk_pipes nf (length m) 0 sh) as [[p2 rest] e]. cbn in G. subst e.
     unfold mk_capture, nf. rewrite NB. destruct (p_capture pl).
     + destruct (p_pipe PCapOut p2) as [q1 o]. destruct (p_pipe PCapErr q1) as [q2 e].
-      destruct (run_stages fixed openable rest (Some o) (Some e) true 0 (s :: m) q2). reflexivity.
-    + destruct (run_stages fixed openable rest None None false 0 (s :: m) p2). reflexivity.
+      destruct (run_stages v openable rest (Some o) (Some e) true 0 (s :: m) q2). reflexivity.
+    + destruct (run_stages v openable rest None None false 0 (s :: m) p2). reflexivity.
 Qed.
+
+(* here-string on a non-first stage (was refuted before /repo 567a7de; now an instance of C02_wiring) *)
+Example C02_here_nonfirst :
+  let r := run_pipeline v0 nf yes (mkplan [ext; mks FHere [] KExt []] false) sh0 in
+  map (fun k => obj_at (tab (k_proc k)) 0) (res_kids r) = [Some (OInh 0); Some (OPipeR (PHere 1))]
+  /\ map (fun k => map (obj_at (tab (k_proc k))) [3; 4; 5]) (res_kids r) = [[None; None; None]; [None; None; None]].
+Proof. vm_compute. split; reflexivity. Qed.
 
 (* the status: whatever order the stages finish in *)
 Theorem C02_wait : forall pids evs rest,
@@ -92,7 +133,8 @@ Proof. exact wait_fg_job_order_independent. Qed.
 Example C02_wait_nonvacuous : fg_schedule ex_pids ex_evs.
 Proof. exact ex_schedule. Qed.
 
+Print Assumptions C02_wiring.
+Print Assumptions C02_eof.
 Print Assumptions C02_wait.
 Print Assumptions C02_wait_order_independent.
 Print Assumptions C02_once_and_shell_holds_nothing.
-Print Assumptions C02_refuted.
